@@ -92,3 +92,35 @@ package meta_leaseset
 //@     assert(mls.ExpirationTime().Equal(time.Unix(int64(mls.Published()), 0).Add(time.Duration(mls.Expires()) * time.Second)))
 //@   }
 //@ }
+
+// C15 for every MetaLeaseSet value and every entry: exact expiration and
+// IsExpired() a day either side of it (A-CLOCK).
+//@ lemma C15_MetaIsExpired(mls *MetaLeaseSet) {
+//@   assume(mls != nil)
+//@   end := time.Unix(int64(mls.published)+int64(mls.expires), 0)
+//@   assert(mls.ExpirationTime().Equal(end))
+//@   t0 := time.Now()
+//@   ex := mls.IsExpired()
+//@   t1 := time.Now()
+//@   if end.Before(t0.Add(-24 * time.Hour)) {
+//@     assert(ex)
+//@   }
+//@   if end.After(t1.Add(24 * time.Hour)) {
+//@     assert(!ex)
+//@   }
+//@ }
+
+//@ lemma C15_MetaEntryIsExpired(e *MetaLeaseSetEntry) {
+//@   assume(e != nil)
+//@   end := time.Unix(int64(e.expires), 0)
+//@   assert(e.ExpiresTime().Equal(end))
+//@   t0 := time.Now()
+//@   ex := e.IsExpired()
+//@   t1 := time.Now()
+//@   if end.Before(t0.Add(-24 * time.Hour)) {
+//@     assert(ex)
+//@   }
+//@   if end.After(t1.Add(24 * time.Hour)) {
+//@     assert(!ex)
+//@   }
+//@ }
